@@ -220,6 +220,7 @@ impl Saved {
 }
 
 fn save(format: Format, dom: &WeakDom, roots: &[Ref]) -> Saved {
+    crate::engine::tick();
     let src_dom = dom;
     let res = crate::panic::catch(|| {
         let mut buf = Vec::new();
